@@ -9,7 +9,7 @@
    re-cluster the remaining nodes with the edges among them, and take the union.
    Hypotheses: node ids distinct; every edge row joins two rows of the node table. *)
 From Coq Require Import ZArith List Bool QArith Permutation Lia.
-From Splinkv Require Import Base.Graph Model.CC Proofs.CCP Model.MultiThr Proofs.MultiThrP.
+From Splinkv Require Import Base.Graph Model.CC Proofs.CCP Proofs.CCExtraP Model.MultiThr Proofs.MultiThrP.
 Import ListNotations.
 Open Scope Z_scope.
 
@@ -183,6 +183,23 @@ Proof. split; vm_compute; reflexivity. Qed.
 (* empty node table: SQL returns (0, NULL, NULL); the model's cluster_stats [] is (0, 0, 0).  The
    statistics theorem above is about the rows of a partition of a node table and is vacuous here. *)
 Example C11_stats_empty_table_note : cluster_stats [] = (0%nat, 0%nat, Qmake 0 1).
+Proof. vm_compute. reflexivity. Qed.
+
+(* edge rows with a NULL match_probability (multi_n) are inert at every threshold, 0 included: each
+   entry is the component-minimum labelling over the rows whose probability is known and >= t *)
+Theorem C11_null_probability_edges_inert :
+  forall nodes edges thresholds t cc,
+    NoDup nodes -> In (t, cc) (multi_n nodes edges thresholds) ->
+    forall v c, In (v, c) cc <-> In v nodes /\ c = comp_min nodes (thr_edges_n (Some t) edges) v.
+Proof.
+  intros nodes edges ts t cc ND Hin. unfold multi_n in Hin. rewrite thr_edges_n_some.
+  apply (multi_good nodes (non_null edges) ND ts t cc Hin).
+Qed.
+Print Assumptions C11_null_probability_edges_inert.
+
+Example C11_null_edge_example :
+  multi_n [1; 2; 3] [(1, 2, None); (2, 3, Some (Qmake 1 2))] [Qmake 3 4; Qmake 0 1]
+  = [(Qmake 0 1, [(1, 1); (2, 2); (3, 2)]); (Qmake 3 4, [(1, 1); (2, 2); (3, 3)])].
 Proof. vm_compute. reflexivity. Qed.
 
 (* non-vacuity: unsorted thresholds including 1 and a value equal to an edge probability *)
